@@ -32,9 +32,15 @@ Inductive action :=
 | ARaiseNew         (* may raise some other exception (treated as propagating) *)
 | AReply.           (* Daemon.handleRequest's catch-all: answers with an error reply, re-raises conditionally *)
 
+(* a handler row may be guarded: [GAtRecv] = only when the exception surfaced at the function's recv_stub call
+   (source: `if msg is None and isinstance(x, C): ...; return False` at the head of an except clause, msg being
+   assigned by that call only) *)
+Inductive guard := GAlways | GAtRecv.
+Definition guard_ok (g : guard) (atrecv : bool) : bool := match g with GAlways => true | GAtRecv => atrecv end.
+
 (* a try statement or a `with contextlib.suppress(...)` block; [s_ord] counts the sites of one function in
    source order; [s_outer] is the innermost site of the same function whose protected body contains this one *)
-Record site := { s_fn : fn; s_ord : nat; s_handlers : list (list cls * action); s_finally : bool; s_outer : option nat }.
+Record site := { s_fn : fn; s_ord : nat; s_handlers : list (list cls * guard * action); s_finally : bool; s_outer : option nat }.
 
 (* the anchored calls *)
 Inductive ckind :=
